@@ -90,6 +90,7 @@ type chaos struct {
 	g    *Rng
 	stamp atomic.Int64
 
+	probes  int // directed reads issued so far (probeDuringElection)
 	mu      sync.Mutex
 	hist    []*histOp
 	clients []*SimClient
@@ -241,7 +242,15 @@ func (c *chaos) clientLoop(ci int, sc *SimClient, start time.Duration) {
 			op.Node = node
 			c.finishWrite(op, err, func() { op.Status = resp.DeleteRanges[0].Status })
 		case opGet:
-			grs, node, err := sc.Read(shard, timeout, &proto.GetRequest{Key: key, IncludeValue: true})
+			via := ""
+			if c.o.CheckLinearizability && og.Chance(12) {
+				// a client with an old view of the assignments: any server that has led this shard before
+				if past := c.mon.pastLeaders(shard); len(past) > 0 {
+					via = past[og.Intn(len(past))] + ":6648"
+					c.r.Count("reads_via_a_past_leader", 1)
+				}
+			}
+			grs, node, err := sc.ReadVia(via, shard, timeout, &proto.GetRequest{Key: key, IncludeValue: true})
 			op.Node = node
 			if err != nil || len(grs) != 1 {
 				op.Unknown = true
@@ -366,6 +375,53 @@ func (c *chaos) restartDeadNodes() {
 
 func (c *chaos) lastDir(name string) string {
 	return fmt.Sprintf("%s/%s-d%d", c.w.Root, name, c.cl.nodeDirSeq[name])
+}
+
+// probeDuringElection: a directed read.  While a node is busy becoming leader (BecomeLeader has just been
+// delivered; it holds its lock until a quorum has its log and the log is applied) a client with an old
+// view of the assignments reads from it.  The answer belongs to the history like any other read.
+func (c *chaos) probeDuringElection(node string, shard, term int64) {
+	c.mu.Lock()
+	n := len(c.clients)
+	c.mu.Unlock()
+	if n == 0 || c.probes >= 6 {
+		return
+	}
+	c.probes++
+	g := NewRng(c.r.Seed, "probe", shard, term)
+	ci := g.Intn(n)
+	sc := c.clients[ci]
+	for j := 0; j < 2; j++ {
+		key := fmt.Sprintf("k%d", g.Intn(c.o.Keys))
+		if c.shardOfKey(key) != shard {
+			continue
+		}
+		delay := time.Duration(g.Range(0, 3000)) * time.Microsecond
+		pid := c.probes*2 + j
+		sc.EP.Go(func() {
+			time.Sleep(delay)
+			op := &histOp{Client: 100 + pid, Shard: shard, Key: key, Kind: opGet, Tag: fmt.Sprintf("probe-%d-%d", shard, term)}
+			op.Invoke = c.Stamp()
+			c.record(op)
+			grs, served, err := sc.ReadVia(node+":6648", shard, 5*time.Second, &proto.GetRequest{Key: key, IncludeValue: true})
+			op.Node = served
+			if err != nil || len(grs) != 1 {
+				op.Unknown = true
+				if err != nil {
+					op.Err = err.Error()
+				}
+			} else {
+				op.OK = true
+				op.Status = grs[0].Status
+				if grs[0].Status == proto.Status_OK {
+					op.Value = string(grs[0].Value)
+					op.Version = grs[0].Version.VersionId
+				}
+				c.r.Count("probe_reads_answered_during_election", 1)
+			}
+			op.Return = c.Stamp()
+		})
+	}
 }
 
 // huntLeader: a directed schedule.  A leader that has just been installed is cut off from the other nodes
